@@ -728,6 +728,13 @@ pub const DEEP_SHAPES: [&str; 4] = ["arrays", "objects", "mixed", "wide-mixed"];
 pub const DEEP_DEPTHS: [usize; 9] = [126, 127, 128, 129, 130, 200, 512, 1000, 2000];
 
 pub fn deep_doc(shape: &str, depth: usize) -> J {
+    // "wide" shapes reuse the second parameter as a width: long arrays and objects, flat and one level down
+    match shape {
+        "wide-array" => return J::Array((0..depth).map(|i| if i % 7 == 0 { J::Null } else if i % 3 == 0 { json!(-(i as i64)) } else { json!(i) }).collect()),
+        "wide-object" => return J::Object((0..depth).map(|i| (format!("k{i}"), if i % 5 == 0 { J::Null } else { json!([i, null]) })).collect()),
+        "wide-nested" => return json!({"outer": [null, J::Array((0..depth).map(|i| json!(i)).collect()), {"inner": J::Array((0..depth).map(|_| J::Null).collect())}]}),
+        _ => {}
+    }
     let mut v = json!(-0.0);
     for i in 0..depth {
         v = match shape {
@@ -851,6 +858,15 @@ pub fn run(ctx: &Ctx) -> i32 {
         }
         // deeply nested documents built programmatically (126 .. 2000 levels)
         let mut dj = 0u64;
+        for (shape, depth) in [("wide-array", 127usize), ("wide-array", 128), ("wide-array", 129), ("wide-array", 255), ("wide-array", 256), ("wide-array", 257), ("wide-array", 1000), ("wide-array", 70000), ("wide-object", 128), ("wide-object", 129), ("wide-object", 300), ("wide-object", 5000), ("wide-nested", 129), ("wide-nested", 1025)] {
+            if shard_of(dj, shard, n) {
+                acc.eval();
+                acc.count("wide_documents");
+                acc.nontrivial(&(shape, depth));
+                report(&mut acc, deep_findings(shape, depth));
+            }
+            dj += 1;
+        }
         for shape in DEEP_SHAPES {
             for depth in DEEP_DEPTHS {
                 if shard_of(dj, shard, n) {
@@ -879,7 +895,7 @@ pub fn run(ctx: &Ctx) -> i32 {
         Finish {
             level: "exploration",
             rule: format!(
-                "JSON documents generated as text and parsed with serde_json::from_str. Exhaustive (seed independent): every document of at most {max_size} nodes over the 12 scalar literals {SCALARS:?} and the 3 keys \"a\", \"\", \"\\u00e9\" (arrays; objects with distinct keys in every order), plus {} numeric boundary literals each bare / in arrays / as object members / nested. Plus 36 documents nested 126..2000 levels deep (arrays / objects / mixed, built programmatically because serde_json's parser stops at 128 while serde_json::Value can hold any depth), round-tripped both ways. Plus {n_random} seeded random documents of depth <= 6 (integer literals of 1..25 digits, values around u64::MAX, i64::MIN, i64::MAX, 2^53, fractions, exponents, escaped and non-ASCII strings and keys). Per document: deserialize::<serde_json::Value,_,Rec> gives the same document (== and serialized text) with no report; Value::from(into_value()) gives the same document (== and text); at every node kind() == into_value().kind(); every number's kind equals the kind computed from the literal's syntax. Non-trivial = the document contains a number that is not a small plain non-negative integer, a container inside a container, or a non-ASCII / escaped string; distinct = distinct document text.",
+                "JSON documents generated as text and parsed with serde_json::from_str. Exhaustive (seed independent): every document of at most {max_size} nodes over the 12 scalar literals {SCALARS:?} and the 3 keys \"a\", \"\", \"\\u00e9\" (arrays; objects with distinct keys in every order), plus {} numeric boundary literals each bare / in arrays / as object members / nested. Plus 14 wide documents (arrays of 127..70000 elements, objects of 128..5000 members, flat and nested) and 36 documents nested 126..2000 levels deep (arrays / objects / mixed, built programmatically because serde_json's parser stops at 128 while serde_json::Value can hold any depth), round-tripped both ways. Plus {n_random} seeded random documents of depth <= 6 (integer literals of 1..25 digits, values around u64::MAX, i64::MIN, i64::MAX, 2^53, fractions, exponents, escaped and non-ASCII strings and keys). Per document: deserialize::<serde_json::Value,_,Rec> gives the same document (== and serialized text) with no report; Value::from(into_value()) gives the same document (== and text); at every node kind() == into_value().kind(); every number's kind equals the kind computed from the literal's syntax. Non-trivial = the document contains a number that is not a small plain non-negative integer, a container inside a container, or a non-ASCII / escaped string; distinct = distinct document text.",
                 BOUNDARY_NUMBERS.len()
             ),
             exhaustive: true,
